@@ -16,6 +16,8 @@ var fullModeTypes = []string{"Header", "EpochMark", "TicketsMark", "Bitfield", "
 	"Verdict", "DisputesExtrinsic", "ServiceIDList", "CoresStatistics", "TicketsOrKeys", "AuthPools",
 	"AvailabilityAssignments", "Privileges", "AccumulatedQueue", "Block", "Ancestry"}
 
+const maxCaseBytes = 48 << 10
+
 type sample struct {
 	mode, name string
 	seed       uint64
@@ -28,10 +30,23 @@ func samples(rng *h.Rng, per, perBig, perFull int, st h.Stats) []sample {
 	add := func(mode, name string, n int) {
 		setMode(mode)
 		for i := 0; i < n; i++ {
-			seed := rng.U64() >> 1
-			b, err := encodePooled(genValue(name, seed))
+			var seed uint64
+			var b []byte
+			var err error
+			// keep single cases moderate (the model side is list based): redraw oversized values
+			for try := 0; try < 8; try++ {
+				seed = rng.U64() >> 1
+				b, err = encodePooled(genValue(name, seed))
+				if err != nil || len(b) <= maxCaseBytes {
+					break
+				}
+			}
 			if err != nil {
 				st.Inc("gen-encode-error-" + name)
+				continue
+			}
+			if len(b) > maxCaseBytes {
+				st.Inc("gen-oversize-skipped")
 				continue
 			}
 			out = append(out, sample{mode, name, seed, b})
@@ -67,6 +82,10 @@ func GenC11(rng *h.Rng, tier string, emit func(string)) {
 		b, err := genMessage(seed).MarshalBinary()
 		if err != nil {
 			st.Inc("gen-marshal-error")
+			continue
+		}
+		if len(b) > maxCaseBytes {
+			i--
 			continue
 		}
 		emit(fmt.Sprintf("frt t %d %s", seed, h.Hex(b)))
@@ -121,10 +140,10 @@ func mutate(g *G, b []byte, heavy bool, yield func(kind string, m []byte)) {
 			yield("trunc", b[:k])
 		}
 	} else {
-		for _, k := range []int{0, 1, 2, n / 2, n - 2, n - 1} {
+		for _, k := range []int{1, n / 2, n - 1} {
 			yield("trunc", b[:k])
 		}
-		for i := 0; i < 6; i++ {
+		for i := 0; i < 3 && n <= 3000; i++ {
 			yield("trunc", b[:g.R.Intn(n)])
 		}
 	}
@@ -136,6 +155,9 @@ func mutate(g *G, b []byte, heavy bool, yield func(kind string, m []byte)) {
 	reps := 6
 	if heavy {
 		reps = 14
+	}
+	if n > 3000 {
+		reps = 2 // large values: a few edits each, the volume goes to the small ones
 	}
 	for i := 0; i < reps; i++ {
 		// byte flip to a boundary value
